@@ -9,7 +9,7 @@ namespace Calc
 variable {S : Type} [Add S] [Sub S] [Mul S] [Div S] [Zero S] [One S] [Kernel S]
 set_option linter.unusedSectionVars false
 
-namespace Mat
+namespace Mat.NoPanic
 
 /-- `wellShaped` as a proposition: at least one row, at least one column, every row as long as
     the first -/
@@ -214,5 +214,5 @@ theorem colDot_ok {a b : Mat S} (h1 : ncols a = 1) (h2 : ncols b = 1) (h3 : nrow
     ∃ z, colDot a b = .ok z :=
   ⟨_, by unfold colDot; rw [if_neg (by simp [h1, h2, h3])]⟩
 
-end Mat
+end Mat.NoPanic
 end Calc
